@@ -102,6 +102,7 @@ def part_movimm(rep, tier, seed):
 # ---- (ii) SIB option shapes ---------------------------------------------------------------------------------------------
 
 CLASS_INSNS = [("lea r15, %s", None), ("mov rdx, %s", 64), ("mov %s, rdx", 64), ("inc dword %s", 32), ("add qword %s, 0x5", 64),
+               ("add dword %s, 0x0000000000000005", 32),     # a 16-digit literal is only special for mov r64, imm
                ("paddb xmm3, %s", 128), ("vpaddd ymm1, ymm2, %s", 256), ("bextr rdx, %s, rcx", 64)]
 
 
@@ -126,7 +127,7 @@ def sib_shapes(tier):
 
 def part_sib(rep, tier):
     sh = sib_shapes(tier)
-    insns = CLASS_INSNS if tier == "thorough" else CLASS_INSNS[:2] + CLASS_INSNS[3:4] + CLASS_INSNS[5:7]
+    insns = CLASS_INSNS if tier == "thorough" else CLASS_INSNS[:2] + CLASS_INSNS[3:4] + CLASS_INSNS[5:8]
     cases = []
     for kind, s in sh:
         b, i, sc, d, st = s
